@@ -1390,6 +1390,10 @@ def run(facts, rep, tier):
     rule_r7(facts, rep)
     rule_r8(facts, rep)
     rule_r10(facts, rep)
+    rep.rule("C01-R4b", "= C06-R5: the two link printers switch to the autolink form `<url>` only for external links whose text equals the url; a reference written as <key> is no longer a link "
+                        "(its destination is lost).")
+    from . import c06
+    c06.rule_r5(facts, rep, "C01-R4b")
     rep.rule("C01-R9", "= C07-R4: continuation lines of a list item are indented by the width of the marker actually printed; a fixed indent lets the later lines of items with wider markers "
                        "(100., 1000.) fall out of the item, i.e. they are merged into a neighbour or turn into another kind of block.")
     from . import c07
